@@ -934,3 +934,213 @@ c14_w!(c09_n_new_key_set_grows_index, write_missing_case(0));
 c14_w!(c14_w_missing_reference, write_missing_case(1));
 c14_w!(c14_w_missing_dereference, write_missing_case(2));
 c14_w!(c14_w_missing_tree_op, write_missing_case(3));
+
+// =====================================================================================
+// C20.W: the index walk behind migration and validation (HashColumn::iter_index_internal): every non-empty entry of every
+// page from the start page to the last page of the index is reported exactly once, in (page, slot) order, with the key
+// rebuilt from (page number, partial key, stored key tail), the stored counter and the stored value; an entry whose value
+// is missing is reported as corrupted (and the walk goes on if the callback says so); the callback can stop the walk.
+// `IndexTable::entries` = the harness's two sparse pages (holes before, between and after live entries),
+// `ValueTable::get_with_meta` = the harness's value store (symbolic counter and key tail per value) — both contracts
+// are decided on their own (C09/C19 page reads, C06.S2 query with Fetch).
+// =====================================================================================
+pub const WK: usize = 6;
+pub const WK_SLOTS: [(usize, usize); WK] = [(0, 0), (0, 5), (0, 63), (1, 1), (1, 2), (1, 40)];
+pub static mut WK_RC: [u32; WK] = [0; WK];
+pub static mut WK_PK: [[u8; 26]; WK] = [[0; 26]; WK];
+pub static mut WK_MISSING: usize = 99;
+pub static mut WK_SEEN: usize = 0;
+pub static mut WK_KIND: [u8; 8] = [0; 8]; // 1 item, 2 corrupted
+pub static mut WK_KEY: [[u8; 32]; 8] = [[0; 32]; 8];
+pub static mut WK_SRC: [u32; 8] = [0; 8];
+pub static mut WK_VAL: [u8; 8] = [0; 8];
+pub static mut WK_VLEN: [usize; 8] = [0; 8];
+pub static mut WK_AT: [(u64, u32); 8] = [(0, 0); 8];
+fn wk_entry(k: usize) -> crate::index::Entry { crate::index::verif_kani::mk_entry(Address::new(k as u64 + 1, (k % 3) as u8), 0x1234 + k as u64, 16) }
+
+pub fn stub_get_with_meta<Q: LogQuery>(t: &ValueTable, index: u64, _log: &Q) -> Result<Option<(Value, u32, [u8; 26], bool)>> {
+	assert!(index >= 1 && index <= WK as u64, "C20.W values are fetched only at addresses that came out of an index entry");
+	let k = (index - 1) as usize;
+	assert!(t.id.size_tier() as usize == k % 3, "C20.W the value is fetched from the size tier named by the entry's address");
+	unsafe {
+		if k == WK_MISSING { return Ok(None) }
+		let mut v = Vec::with_capacity(1);
+		v.push(k as u8 + 100);
+		Ok(Some((v, WK_RC[k], WK_PK[k], false)))
+	}
+}
+pub fn stub_dump_entry(_t: &ValueTable, _index: u64) -> Result<Vec<u8>> { Ok(Vec::new()) }
+
+/// `left`: pages between the start page and the end of the index (1 or 2); `missing`: which live entry has no value (99: none);
+/// `stop_after`: the callback answers "stop" at its n-th call (0: never).
+fn walk_case(left: u64, missing: usize, stop_after: usize) {
+	let col = mini_plain(false);
+	let src = crate::index::verif_kani::table(16);
+	let total = src.id.total_chunks();
+	let start = total - left;
+	unsafe {
+		RX_BASE = start;
+		let mut p = 0;
+		while p < 2 { let mut i = 0; while i < 64 { RX_PAGES[p][i] = 0; i += 1; } p += 1; }
+		let mut k = 0;
+		while k < WK {
+			let (p, s) = WK_SLOTS[k];
+			// with one page left the walk starts at the harness's page 0 = the last page of the index
+			RX_PAGES[p][s] = wk_entry(k).as_u64();
+			WK_RC[k] = kani::any();
+			WK_PK[k] = kani::any();
+			k += 1;
+		}
+		WK_MISSING = missing;
+		WK_SEEN = 0;
+	}
+	let log = crate::log::verif_kani::mk_log_plain(true);
+	let r = col.iter_index_internal(&log, |st| {
+		unsafe {
+			let n = WK_SEEN;
+			if n < 8 {
+				match st {
+					IterStateOrCorrupted::Item(it) => {
+						WK_KIND[n] = 1; WK_KEY[n] = it.key; WK_SRC[n] = it.rc; WK_VLEN[n] = it.value.len();
+						WK_VAL[n] = if it.value.len() > 0 { it.value[0] } else { 0 };
+						WK_AT[n] = (it.item_index, 0);
+						assert!(it.total_items == crate::index::verif_kani::table(16).id.total_chunks(), "C20.W progress is reported against the number of pages");
+						std::mem::forget(it);
+					},
+					IterStateOrCorrupted::Corrupted(c) => { WK_KIND[n] = 2; WK_AT[n] = (c.chunk_index, c.sub_index); std::mem::forget(c); },
+				}
+			}
+			WK_SEEN += 1;
+			Ok(WK_SEEN != stop_after)
+		}
+	}, start);
+	assert!(r.is_ok(), "C20.W the walk itself does not fail");
+	// expected sequence: live entries of the pages [start, total) in (page, slot) order
+	let mut want = 0usize;
+	let mut k = 0;
+	while k < WK {
+		let (p, s) = WK_SLOTS[k];
+		if (p as u64) < left && (stop_after == 0 || want < stop_after) {
+			unsafe {
+				assert!(want < WK_SEEN, "C20.W every non-empty entry of every page up to the end of the index is reported");
+				let page = start + p as u64;
+				if k == missing {
+					assert!(WK_KIND[want] == 2 && WK_AT[want] == (page, s as u32), "C20.W an entry without value is reported as corrupted with its page and slot");
+				} else {
+					assert!(WK_KIND[want] == 1, "C20.W an entry with a value is reported as an item");
+					let kp = src.recover_key_prefix(page, wk_entry(k));
+					let b: usize = kani::any();
+					kani::assume(b < 32);
+					if b < 6 { assert!(WK_KEY[want][b] == kp[b], "C20.W key bytes 0..6 are rebuilt from (page number, partial key)"); }
+					else { assert!(WK_KEY[want][b] == WK_PK[k][b - 6], "C20.W key bytes 6..32 are the key tail stored with the value"); }
+					assert!(WK_SRC[want] == WK_RC[k], "C20.W the stored reference count is reported");
+					assert!(WK_VLEN[want] == 1 && WK_VAL[want] == k as u8 + 100, "C20.W the value stored at the entry's address is reported");
+					assert!(WK_AT[want].0 == page, "C20.W the item is attributed to its page");
+				}
+			}
+			want += 1;
+		}
+		k += 1;
+	}
+	assert!(unsafe { WK_SEEN } == want, "C20.W nothing but the live entries is reported, each once, and a stopped walk reports nothing further");
+	kani::cover!(want >= 3);
+	std::mem::forget(r); std::mem::forget(log); std::mem::forget(col); std::mem::forget(src);
+}
+
+macro_rules! c20_w {
+	($name:ident, $left:expr, $missing:expr, $stop:expr) => {
+		crate::verif_tbl! {
+			#[kani::proof]
+			#[kani::unwind(66)]
+			#[kani::stub(crate::index::IndexTable::entries, stub_entries)]
+			#[kani::stub(crate::table::ValueTable::get_with_meta, stub_get_with_meta)]
+			#[kani::stub(crate::table::ValueTable::dump_entry, stub_dump_entry)]
+			fn $name() { walk_case($left, $missing, $stop) }
+		}
+	};
+}
+c20_w!(c20_w_index_walk_last_two_pages, 2, 99, 0);
+c20_w!(c20_w_index_walk_last_page, 1, 99, 0);
+c20_w!(c20_w_index_walk_missing_value, 2, 1, 0);
+c20_w!(c20_w_index_walk_stopped, 2, 99, 4);
+
+// =====================================================================================
+// C06.M: an overwrite whose new value belongs to another size class (Column::write_existing_value_plan, Set arm on a plain
+// column). The table operations are contracts that record their calls and assert the tables' own precondition — a fixed
+// table only takes values that fit its entry, the multipart table only takes values that need a chain (its reader treats a
+// first part without the multi-part head marker as "no value", src/table.rs for_parts) — their effect on the bytes is
+// decided by C06.S2-S4. Real code: tier selection (Column::compress over the harness's three tables) and the glue:
+// wherever the result says the value lives, a table operation put it there, and storage it no longer occupies was released.
+// =====================================================================================
+pub static mut TM_N: usize = 0;
+pub static mut TM_KIND: [u8; 3] = [0; 3]; // 1 replace, 2 remove, 3 insert
+pub static mut TM_TIER: [u8; 3] = [0; 3];
+pub static mut TM_AT: [u64; 3] = [0; 3];
+pub static mut TM_LEN: [usize; 3] = [0; 3];
+pub static mut TM_NEW: u64 = 0;
+fn tm_record(kind: u8, t: &ValueTable, at: u64, len: usize) { unsafe { assert!(TM_N < 3, "harness: at most three table operations"); TM_KIND[TM_N] = kind; TM_TIER[TM_N] = t.id.size_tier(); TM_AT[TM_N] = at; TM_LEN[TM_N] = len; TM_N += 1; } }
+fn tm_fits(t: &ValueTable, key: &TableKey, len: usize) {
+	let stored = len + key.encoded_size();
+	if vt::is_multipart(t) { assert!(stored > vt::entry_size_of(t) - 2, "C06.M the multipart table only receives values that need more than one part (a single-part entry there reads back as absent)"); }
+	else { assert!(stored <= vt::entry_size_of(t) - 2, "C06.M a fixed-size table only receives values that fit one entry"); }
+}
+pub fn stub_tm_replace(t: &ValueTable, index: u64, key: &TableKey, value: &[u8], _l: &mut LogWriter, _c: bool) -> Result<()> { tm_fits(t, key, value.len()); tm_record(1, t, index, value.len()); Ok(()) }
+pub fn stub_tm_remove(t: &ValueTable, index: u64, _l: &mut LogWriter) -> Result<()> { tm_record(2, t, index, 0); Ok(()) }
+pub fn stub_tm_insert(t: &ValueTable, key: &TableKey, value: &[u8], _l: &mut LogWriter, _c: bool) -> Result<u64> { tm_fits(t, key, value.len()); tm_record(3, t, unsafe { TM_NEW }, value.len()); Ok(unsafe { TM_NEW }) }
+
+fn tier_move_case<const N: usize>(old_tier: u8) {
+	let tables = [vt::mk(ValueTableId::new(0, 0), 32, false, false, 8), vt::mk(ValueTableId::new(0, 1), 64, false, false, 8), vt::mk(ValueTableId::new(0, 2), 64, true, false, 8)];
+	let overlays = vl::new_overlays();
+	let mut w = LogWriter::new(&overlays, 1);
+	let keyb: Key = kani::any();
+	let key = TableKey::Partial(keyb);
+	let at: u64 = kani::any();
+	kani::assume(at >= 1 && at < 8);
+	unsafe { TM_N = 0; TM_NEW = kani::any(); kani::assume(TM_NEW >= 1 && TM_NEW < 8); }
+	let address = Address::new(at, old_tier);
+	let compression = Compress::new(crate::compress::CompressionType::NoCompression, u32::MAX);
+	let tref = TablesRef { tables: &tables, compression: &compression, col: 0, preimage: false, ref_counted: false };
+	let newv: [u8; N] = kani::any();
+	let change: Operation<Key, [u8; N]> = Operation::Set(keyb, newv);
+	let (o, a) = Column::write_existing_value_plan(&key, tref, address, &change, &mut w, None, false).unwrap();
+	unsafe {
+		match a {
+			None => {
+				assert!(matches!(o, Some(PlanOutcome::Written)), "C06.M an overwrite that keeps its address reports the write");
+				assert!(TM_N == 1 && TM_KIND[0] == 1 && TM_TIER[0] == old_tier && TM_AT[0] == at && TM_LEN[0] == N, "C06.M an overwrite that keeps its address rewrites exactly that slot with the new value");
+			},
+			Some(na) => {
+				assert!(o.is_none(), "C06.M a moved value reports its new address instead of an outcome");
+				assert!(TM_N == 2, "C06.M a move is one release and one insertion");
+				let (ri, ii) = if TM_KIND[0] == 2 { (0, 1) } else { (1, 0) };
+				assert!(TM_KIND[ri] == 2 && TM_TIER[ri] == old_tier && TM_AT[ri] == at, "C06.M the storage of the old value is released");
+				assert!(TM_KIND[ii] == 3 && TM_LEN[ii] == N, "C06.M the new value is inserted once");
+				assert!(na.size_tier() == TM_TIER[ii] && na.offset() == TM_AT[ii], "C06.M the reported address is where the new value was inserted");
+			},
+		}
+	}
+	kani::cover!(unsafe { TM_N } >= 1);
+	std::mem::forget(change); std::mem::forget(w); std::mem::forget(tables); std::mem::forget(overlays);
+}
+
+macro_rules! c06_m {
+	($name:ident, $n:expr, $tier:expr) => {
+		crate::verif_tbl! {
+			#[kani::proof]
+			#[kani::unwind(102)]
+			#[kani::stub(crate::table::ValueTable::write_replace_plan, stub_tm_replace)]
+			#[kani::stub(crate::table::ValueTable::write_remove_plan, stub_tm_remove)]
+			#[kani::stub(crate::table::ValueTable::write_insert_plan, stub_tm_insert)]
+			fn $name() { tier_move_case::<$n>($tier) }
+		}
+	};
+}
+// new length (Partial key: 32-byte entries hold 4 value bytes, 64-byte entries 36, longer values are chained) x old tier
+c06_m!(c06_m_len2_from_fixed64, 2, 1);
+c06_m!(c06_m_len2_from_multipart, 2, 2);
+c06_m!(c06_m_len4_from_fixed64, 4, 1);
+c06_m!(c06_m_len5_from_fixed32, 5, 0);
+c06_m!(c06_m_len36_from_multipart, 36, 2);
+c06_m!(c06_m_len37_from_fixed64, 37, 1);
+c06_m!(c06_m_len37_from_multipart, 37, 2);
+c06_m!(c06_m_len8_from_fixed64, 8, 1);
